@@ -350,6 +350,10 @@ type job struct {
 func main() {
 	log.SetOutput(io.Discard) // gqlgen's transports log decode failures
 	c := vlib.NewCheck("C09", "model_checking")
+	allLits, extraLits, err := scanMediaLiterals()
+	if err != nil || len(allLits) == 0 {
+		vlib.Infra("scan of media type literals in %s: %v (%d found)", vlib.Repo(), err, len(allLits))
+	}
 	if err := selfCheckSpellings(); err != nil {
 		vlib.Infra("concretiser self-check: %v", err)
 	}
@@ -363,11 +367,11 @@ func main() {
 	// the fixed servers are defined in spec/MC_Http.tla and read back from
 	// TLC's SERVERS line; the random ones are written into a generated module
 	baseCfg := "MC_Http.cfg"
-	fixed := []string{"S1", "S2", "S3"}
+	fixed := []string{"S1", "S2", "S3", "S5", "S7"}
 	nRandom := 1
 	if thorough {
 		baseCfg = "MC_HttpFull.cfg"
-		fixed = []string{"S1", "S2", "S3", "S4", "S5", "S6"}
+		fixed = []string{"S1", "S2", "S3", "S4", "S5", "S6", "S7"}
 		nRandom = 6
 	}
 	variants := 1
@@ -375,6 +379,21 @@ func main() {
 		variants = 2
 	}
 	rnd := randomServers(rng, nRandom)
+	// negative configurations: a Supports slip of a body transport must violate GetNeverMutates in the model
+	negResults := map[string]string{}
+	if thorough {
+		for _, n := range []string{"postlegacy", "graphqlmethod"} {
+			res, err := vlib.RunTLC(vlib.TLCOpts{Module: "MC_Http", Config: "MC_Http_neg_" + n + ".cfg", Workers: 2,
+				Timeout: 10 * time.Minute, Scratch: vlib.Work("C09", "tlc-neg-"+n), HeapGB: 4})
+			if err != nil {
+				vlib.Infra("TLC neg %s: %v", n, err)
+			}
+			if res.OK || !strings.Contains(res.Violation, "Invariant GetNeverMutates is violated") {
+				vlib.Infra("negative configuration %s: expected GetNeverMutates to be violated, TLC says:\n%s", n, res.Violation)
+			}
+			negResults[n] = "GetNeverMutates"
+		}
+	}
 	cfgText, err := os.ReadFile(filepath.Join(vlib.SpecDir(), baseCfg))
 	if err != nil {
 		vlib.Infra("read %s: %v", baseCfg, err)
@@ -442,6 +461,7 @@ func main() {
 		perServer                                    = map[string]int64{}
 		perOutcome                                   = map[string]int64{}
 		driftBy                                      = map[string]int64{}
+		tried                                        = map[string]bool{} // method|has body|Content-Type literal, on POST-first servers
 		actionMin                                    = map[string]int64{}
 	)
 	t0 := time.Now()
@@ -481,6 +501,23 @@ func main() {
 		if len(reqLines) == 0 {
 			vlib.Infra("TLC enumerated no request for server %s (vacuous)", out.id)
 		}
+		// round-robin over the spellings of the Content-Type class "other"
+		// inside every (method, carry) cell of this server
+		forced := make([]int, len(reqLines))
+		cell := map[string]int{}
+		for i, ln := range reqLines {
+			var h struct{ M, Ct, Carry string }
+			if err := json.Unmarshal([]byte(ln), &h); err != nil {
+				vlib.Infra("export line: %v", err)
+			}
+			forced[i] = -1
+			if h.Ct == "other" {
+				k := h.M + "|" + h.Carry
+				forced[i] = int(vlib.Seed()) + cell[k]
+				cell[k]++
+			}
+		}
+		postFirst := isPostFirst(def)
 		ls := startServer(def)
 		var wg sync.WaitGroup
 		idx := make(chan int, 256)
@@ -500,7 +537,20 @@ func main() {
 					for variant := 0; variant < variants; variant++ {
 						id := fmt.Sprintf("%s-%d-%d", def.ID, i, variant)
 						r := rand.New(rand.NewSource(seedFor(vlib.Seed(), def.ID, variant, reqLines[i])))
-						conc, p := concretise(&l, r, id)
+						fc := forced[i]
+						if fc >= 0 {
+							fc += variant * 3
+						}
+						conc, p := concretise(&l, r, id, fc)
+						if postFirst && l.Ct == "other" {
+							for _, kv := range conc.Headers {
+								if kv[0] == "Content-Type" {
+									classMu.Lock()
+									tried[fmt.Sprintf("%s|%v|%s", l.M, conc.Body != "", kv[1])] = true
+									classMu.Unlock()
+								}
+							}
+						}
 						if l.Src == "apq" {
 							ls.apq.Add(context.Background(), hashOf(p.query), p.query)
 						}
@@ -531,7 +581,7 @@ func main() {
 						for _, v := range vs {
 							c.Violate(v.key, fmt.Sprintf("server %s %v\nrequest: %s /graphql?%s headers=%v body=%q\n%s", def.ID, def.Ts, conc.Method, conc.Query, conc.Headers[1:], conc.Body, v.detail), sc)
 						}
-						cls := fmt.Sprintf("%s/%s/%s/%s/%s/acc=%s/up=%v/%s", l.Tk, l.Cls, l.Val, l.M, l.Ct, strings.Join(l.Acc, "+"), l.Up, l.Src)
+						cls := fmt.Sprintf("%s/%s/%s/%s/%s/%s/acc=%s/up=%v/%s", l.Tk, l.Cls, l.Val, l.M, l.Carry, l.Ct, strings.Join(l.Acc, "+"), l.Up, l.Src)
 						c.Class(cls)
 						classMu.Lock()
 						perServer[def.ID]++
@@ -568,14 +618,35 @@ func main() {
 			vlib.Infra("vacuous: action %s of Http was never taken", a)
 		}
 	}
+	// every media type literal was tried on every method with and without a body on a POST-first server
+	missing := []string{}
+	for _, lit := range ctSpellings["other"] {
+		for _, m := range []string{"GET", "HEAD", "OPTIONS", "PUT", "POST"} {
+			for _, body := range []bool{false, true} {
+				if m == "POST" && !body {
+					continue
+				}
+				if k := fmt.Sprintf("%s|%v|%s", m, body, lit); !tried[k] {
+					missing = append(missing, k)
+				}
+			}
+		}
+	}
+	if len(missing) > 0 {
+		vlib.Infra("vacuous: (method, has body, media type literal) never tried on a POST-first server: %v", missing)
+	}
 	n := replayed.Load()
 	c.AddTraces(n)
 	c.AddEvals(n)
 	c.Set("rule", "TLC enumerates Servers x Methods x request Content-Type classes x Accept lists x Upgrade? x (document x operationName choice x validity class) x {inline, persisted-query hash}; "+
 		"one request class = one initial state of Http; every class is replayed (quick: one, thorough: two seeded spellings) against the real handler.Server with seeded spellings of headers, documents and bodies; "+
-		"a distinct class = (transport, outcome class, validity, method, content type, Accept list, Upgrade, query source)")
+		"a distinct class = (transport, outcome class, validity, method, carrier, content type, Accept list, Upgrade, query source); media type literals found in the tree under test are extra Content-Type spellings, tried round-robin in every (method, carrier) cell")
 	c.Set("exhaustive", true)
 	c.Set("servers", ids)
+	c.Set("media_type_literals_in_tree", allLits)
+	c.Set("media_type_literals_tried_as_other_content_type", extraLits)
+	c.Set("method_body_literal_triples_tried_on_post_first_servers", len(tried))
+	c.Set("model_negative_configs", negResults)
 	c.Set("random_servers", rnd)
 	c.Set("requests_per_server", perServer)
 	c.Set("requests_per_outcome", perOutcome)
@@ -597,6 +668,20 @@ func main() {
 		vlib.Infra("nothing replayed")
 	}
 	c.Finish()
+}
+
+// isPostFirst: POST is registered and GET is absent or registered after it.
+func isPostFirst(d SrvDef) bool {
+	post, get := -1, -1
+	for i, t := range d.Ts {
+		if t.K == "POST" && post < 0 {
+			post = i
+		}
+		if t.K == "GET" && get < 0 {
+			get = i
+		}
+	}
+	return post >= 0 && (get < 0 || post < get)
 }
 
 func replaceServers(cfg, name string) string {
